@@ -363,6 +363,44 @@ where
             fail!("zip_map", "channel {}: {:?} expected {:?} (pairs channel c of self with channel c of other)", c, z[c], want);
         }
     }
+    // the same per-channel laws on frames with REPEATED channel values (a frame-level fast path
+    // for "uniform" frames must still look at every channel): all channels equal; all equal but
+    // one (the odd one first, in the middle, second to last, last); two values alternating
+    {
+        let (u, v) = (small::<S>(base + 3), small::<S>(base + 58));
+        let mut shapes: Vec<[S; N]> = vec![[u; N], core::array::from_fn(|c| if c % 2 == 0 { u } else { v })];
+        for odd in [0usize, N / 2, N.saturating_sub(2), N - 1] {
+            let mut g = [u; N];
+            g[odd] = v;
+            shapes.push(g);
+        }
+        for g in shapes {
+            let (q1, q2, q3, q4) = (g.offset_amp(off), g.scale_amp(gain), g.add_amp(offs), g.mul_amp(gns));
+            let q5: [S; N] = Frame::map::<[S; N], _>(g, |s: S| s.add_amp(off));
+            let q6: [S; N] = g.zip_map(o, |a: S, b: S| a.add_amp(b.to_signed_sample()));
+            for c in 0..N {
+                let bad = if !q1[c].same(g[c].add_amp(off)) {
+                    Some("offset_amp")
+                } else if !q2[c].same(g[c].mul_amp(gain)) {
+                    Some("scale_amp")
+                } else if !q3[c].same(g[c].add_amp(offs[c])) {
+                    Some("add_amp")
+                } else if !q4[c].same(g[c].mul_amp(gns[c])) {
+                    Some("mul_amp")
+                } else if !q5[c].same(g[c].add_amp(off)) {
+                    Some("map")
+                } else if !q6[c].same(g[c].add_amp(o[c].to_signed_sample())) {
+                    Some("zip_map")
+                } else {
+                    None
+                };
+                if let Some(op) = bad {
+                    fail!(&format!("{}_on_frame_with_repeated_channels", op), "frame {:?}: channel {} is not the per-channel sample operation", g, c);
+                }
+            }
+            ev(6 * N as u64);
+        }
+    }
     // offset / scale / add / mul
     let r1 = f.offset_amp(off);
     let r2 = f.scale_amp(gain);
